@@ -61,6 +61,7 @@ class LineScheduler:
         self.parked = {}          # tid -> lineno
         self.grant = {}           # tid -> number of steps granted
         self.free = False
+        self.solo = None          # thread allowed to run on alone (the one the schedule ends in)
         self.done = set()
 
     def tracer_for(self, tid):
@@ -77,13 +78,13 @@ class LineScheduler:
 
     def arrive(self, tid, lineno):
         with self.cv:
-            if self.free:
+            if self.free or self.solo == tid:
                 return
             self.parked[tid] = lineno
             self.cv.notify_all()
-            while not self.free and self.grant.get(tid, 0) <= 0:
+            while not self.free and self.solo != tid and self.grant.get(tid, 0) <= 0:
                 self.cv.wait(0.05)
-            if not self.free:
+            if not self.free and self.solo != tid:
                 self.grant[tid] -= 1
             self.parked.pop(tid, None)
 
@@ -169,12 +170,27 @@ def replay_race(name, nthreads, trace):
     for t in range(nthreads):
         sched.wait_parked(t)
     steps = []
+    lastline = {}
     for t, pc, kind, ln in trace:
-        if ln and (not steps or steps[-1] != (t, ln)):
+        # several events of one source line are one traced line: executed once, at the first of them
+        if ln and lastline.get(t) != ln:
             steps.append((t, ln))
+        if ln:
+            lastline[t] = ln
     for t, ln in steps:
         sched.advance_to(t, ln)
         sched.step(t)
+    # the thread the schedule ends in finishes its call first, the others stay where the schedule left them (unless it
+    # blocks on a lock one of them holds: then everything is released)
+    if trace:
+        last = trace[-1][0]
+        with sched.cv:
+            sched.solo = last
+            sched.parked.pop(last, None)
+            sched.cv.notify_all()
+            t0 = time.time()
+            while last not in sched.done and time.time() - t0 < 3.0:
+                sched.cv.wait(0.05)
     with sched.cv:
         sched.free = True
         sched.cv.notify_all()
@@ -188,12 +204,113 @@ def replay_race(name, nthreads, trace):
     return False
 
 
+# ------------------------------------------------------------------ caches: publish only when complete
+H5 = "$5$rounds=1000$abcdefgh$" + "a" * 43
+
+
+def pub_targets():
+    import passlib.context as C
+    import passlib.crypto.digest as D
+    return {"_CryptConfig._get_record_list": (C._CryptConfig._get_record_list, "_record_lists"),
+            "_CryptConfig.get_record": (C._CryptConfig.get_record, "_records"),
+            "crypto.digest.lookup_hash": (D.lookup_hash, "_hash_info_cache")}
+
+
+def ob_publish(name, nthreads):
+    from vlib import bmc_pub
+    fn, cache = pub_targets()[name]
+    try:
+        ev = bmc_pub.extract(fn, cache)
+    except bmc.Unsupported as e:
+        return inconclusive("extraction: %s" % e)
+    solo = bmc_pub.bmc(ev, 1)
+    if solo["result"] != "unsat":
+        return inconclusive("one-thread model already reaches an error state: the extracted model is not adequate")
+    res = bmc_pub.bmc(ev, nthreads)
+    kinds = [e[0] for e in ev]
+    if res["result"] == "unsat":
+        return ok("%s, %d threads: no interleaving of %s lets a cache hit see an object its publisher is still changing "
+                  "(%d steps, %.2fs)" % (name, nthreads, kinds, res["steps"], res["time"]), paths=res["steps"], events=kinds,
+                  states=res["steps"] * len(ev), transitions=res["steps"] * len(ev) * nthreads)
+    if res["result"] != "sat":
+        return inconclusive("solver %s" % res["result"])
+    tr = res["trace"]
+    return violation("%s: the cache entry is published before it is complete; schedule %s lets the second caller use the partial "
+                     "object" % (name, [(t, k) for t, i, k, ln in tr]), "publish:%s" % name,
+                     {"module": "harness.c19", "func": "replay_publish",
+                      "args": {"name": name, "nthreads": nthreads, "trace": [[t, i, k, ln] for t, i, k, ln in tr]}})
+
+
+def replay_publish(name, nthreads, trace):
+    from passlib.context import CryptContext
+    fn, cache = pub_targets()[name]
+    if name.startswith("_CryptConfig"):
+        ctx = CryptContext(["md5_crypt", "des_crypt", "sha256_crypt"], admin__sha256_crypt__min_rounds=1000)
+        call = lambda: (ctx.identify(H5), ctx.identify(H5, category="admin"), ctx.handler("sha256_crypt", "admin").name)  # noqa
+        expected = ("sha256_crypt", "sha256_crypt", "sha256_crypt")
+    else:
+        import passlib.crypto.digest as D
+        D.lookup_hash.clear_cache()
+        call = lambda: (D.lookup_hash("sha-256").name, D.lookup_hash("sha-256").digest_size)  # noqa
+        expected = ("sha256", 32)
+    sched = LineScheduler([fn.__code__], nthreads)
+    results = {}
+
+    def worker(tid):
+        sys.settrace(sched.tracer_for(tid))
+        try:
+            results[tid] = ("ok", call())
+        except BaseException as e:  # noqa
+            results[tid] = ("exc", repr(e))
+        finally:
+            sys.settrace(None)
+            with sched.cv:
+                sched.done.add(tid)
+                sched.cv.notify_all()
+    ths = [threading.Thread(target=worker, args=(t,), daemon=True) for t in range(nthreads)]
+    for t in ths:
+        t.start()
+    for t in range(nthreads):
+        sched.wait_parked(t)
+    steps, lastline = [], {}
+    for t, i, kind, ln in trace:
+        if ln and lastline.get(t) != ln:
+            steps.append((t, ln))
+        lastline[t] = ln
+    for t, ln in steps:
+        sched.advance_to(t, ln)
+        sched.step(t)
+    if trace:
+        last = trace[-1][0]
+        with sched.cv:
+            sched.solo = last
+            sched.parked.pop(last, None)
+            sched.cv.notify_all()
+            t0 = time.time()
+            while last not in sched.done and time.time() - t0 < 3.0:
+                sched.cv.wait(0.05)
+    with sched.cv:
+        sched.free = True
+        sched.cv.notify_all()
+    for t in ths:
+        t.join(20)
+    bad = [(t, r) for t, r in sorted(results.items()) if r[0] != "ok" or r[1] != expected]
+    if len(results) < nthreads:
+        return "a thread did not finish under the schedule: %r" % (results,)
+    if bad:
+        return "%s: concurrent first callers got %r (a single thread gets %r)" % (name, bad, expected)
+    return False
+
+
 def run(tier, seed, t0, only=None):
     sys.path.insert(0, runner.REPO)
     obs = []
     for name in ("LazyCryptContext", "LazyBase64Engine", "backend-stub"):
         for n in ((2,) if tier == "quick" else (2, 3)):
             obs.append(Ob("race[%s,%d threads]" % (name, n), ob_race, {"name": name, "nthreads": n}, timeout=3000))
+    for name in ("_CryptConfig._get_record_list", "_CryptConfig.get_record", "crypto.digest.lookup_hash"):
+        for n in ((2,) if tier == "quick" else (2, 3)):
+            obs.append(Ob("publish[%s,%d threads]" % (name, n), ob_publish, {"name": name, "nthreads": n}, timeout=600))
     if only:
         obs = [o for o in obs if only in o.name]
     results = runner.run_obligations(obs)
@@ -203,7 +320,8 @@ def run(tier, seed, t0, only=None):
     return runner.finish(
         PROP, tier, seed, "model_checking", results, t0=t0,
         functions=["LazyCryptContext.__getattribute__/_lazy_init", "LazyBase64Engine.__getattribute__/_lazy_init",
-                   "BackendMixin._stub_requires_backend + set_backend (locked region)"],
+                   "BackendMixin._stub_requires_backend + set_backend (locked region)",
+                   "_CryptConfig._get_record_list / get_record and crypto.digest.lookup_hash (cache publication order)"],
         bounds="2 threads (thorough: 3), every interleaving of the extracted shared-state events (each event its own step), "
                "unrolled to threads x events steps",
         stubs=["the constructor call is one opaque begin/end pair", "attribute reads/deletes/class switch/lock acquire+release are "
@@ -211,7 +329,7 @@ def run(tier, seed, t0, only=None):
                "{install real method, record backend name} in source order"],
         assumptions=["the ~15 event kinds of vlib/bmc.py cover what these methods do; an unrecognised statement aborts extraction "
                      "(inconclusive), nothing is guessed", "one-thread sanity twin must be error free"],
-        outside=["registry lazy import and CryptContext record caches (dict operations under the GIL; not modelled)",
+        outside=["registry lazy import (publication happens in another function)", "atomicity of single dict operations (GIL)",
                  "free-running stress", "more than 3 threads"],
         explanation="Bounded model check (z3) of all schedules of the event sequences extracted from the current source; "
                     "unsat = no schedule reaches an error state (missing pending options, use before the constructor "
